@@ -9,5 +9,6 @@ mkdir -p work evidence
 (cd harness && cargo build --offline)
 harness/target/debug/verif-harness dump-consts > work/consts.json
 python3 tools/gen.py work/consts.json
+python3 tools/shapes.py /repo/src
 (cd lean && lake build SynthVerif SynthVerif.AuditTool driver)
 echo "setup ok"
